@@ -665,8 +665,8 @@ def main(argv=None):
         rep.add_results(nm, mine, sum(1 for it in items if it["section"] == si) - len(mine), exhaustive=False)
     rep.extra["file_level_runs"] = sum(r.get("file_level_runs", 0) for r in res)
     import superrec2.model.reconciliation as M, superrec2.model.tree_mapping as TM
-    rep.functions = R.source_digest(CLI.read_input, CLI.call_algorithm, CLI.dump_results, CLI.reconcile, DRAW.generate_tikz, M.ReconciliationInput.label_internal,
-                                    M.ReconciliationInput.from_dict, M.ReconciliationOutput.from_dict, M.SuperReconciliationOutput.from_dict, TM.get_species_mapping)
+    rep.functions = R.safe_digest(lambda: R.source_digest(CLI.read_input, CLI.call_algorithm, CLI.dump_results, CLI.reconcile, DRAW.generate_tikz, M.ReconciliationInput.label_internal,
+                                    M.ReconciliationInput.from_dict, M.ReconciliationOutput.from_dict, M.SuperReconciliationOutput.from_dict, TM.get_species_mapping))
     rep.bounds = {"label_internal": "three ancestor names, each a symbolic string with len <= 2 over {O,S,0,1,x} (CrossHair, all paths)",
                   "front end": f"{nin} seeded documented-format inputs (2-4 object leaves, 2-3 species leaves, ancestors unnamed or named O0/O1/O3/S1/x), all seven "
                                "algorithms in turn, both policies; unit costs symbolic non-negative integers in the coherent region (all, or dup/hgt/sloss with "
